@@ -6,6 +6,17 @@ from ._generic import make, STD_TRUST
 from .. import common
 
 
+def regen(ctx, res):
+    """Translator (runs before `lake build`): regenerate JaqalModel/Generated/LexerRules.lean — the token rules, literals,
+    ignore set and keyword table as a regex AST — from the master pattern of the LOADED JaqalLexer. `C02_regex`
+    (Lemmas/LexerRegex.lean) proves the hand-written tokenizer of the model equal to a generic regex matcher run on that
+    table, so a changed token rule makes the proof obligation fail to build."""
+    from .. import lexer_extract
+
+    changed = lexer_extract.regenerate()
+    res.extra["lexer_rules_regenerated"] = bool(changed)
+
+
 def tables(ctx, res):
     """Regenerate the grammar table from the LOADED JaqalParser and compare with the table the
     theorems were written against; also sly's conflict counts (sly resolves conflicts silently)."""
@@ -47,10 +58,11 @@ def tables(ctx, res):
 globals().update(
     make(
         pid="C02",
-        props=["JaqalProofs/Props/C02.lean"],
-        targets=["JaqalProofs.Props.C02"],
-        diffs=[("harness.agents.parse_diff", 800, 8000)],
+        props=["JaqalProofs/Props/C02.lean", "JaqalProofs/Lemmas/LexerRegex.lean"],
+        targets=["JaqalProofs.Props.C02", "JaqalProofs.Lemmas.LexerRegex"],
+        diffs=[("harness.agents.parse_diff", 800, 8000), ("harness.agents.c02_entry", 150, 1200)],
         extra_run=tables,
+        tables=regen,
         trusted=[
             STD_TRUST,
             "hand-written models JaqalModel/Model/Lexer.lean (sly's ordered-alternation lexer) and Model/Parser.lean (recursive descent returning sly's S-expressions and error positions); specification JaqalModel/Spec/Grammar.lean (inductive derivation relation written from the language description, does not import the parser)",
